@@ -192,3 +192,6 @@ _extend('C09', 'ADDED (units D-apply, U-apply): how DELETE and UPDATE are APPLIE
         'delete_where call, rebuilds the indexes directly afterwards and records one Delete per row; UPDATE writes every prepared row at its position, then maintains the indexes and records one Update '
         'per row, in order. Nothing is claimed for the error paths in the middle of a statement.')
 _extend('C14', 'ADDED (units D-apply, U-apply): DELETE and UPDATE record one change per affected row, with the rows they collected / prepared, in order, after the table was changed.')
+
+_extend('C10', 'ADDED (unit N-track): within a multi-row INSERT the UNIQUE key of constraint c of every validated row is filed under slot c for the duplicate check of the later rows (a NULL-holding key files nothing and shifts nothing). '
+        'Since fix 3b5d38c3 a multi-row UPDATE tracks the keys it hands out, and INSERT .. ON DUPLICATE KEY UPDATE runs the checks of UPDATE on the row it rewrites (SQL reproductions; executor glue outside the units).')
